@@ -43,7 +43,9 @@ def configs(tier):
                 for opt in ["-O0", "-O1", "-O2", "-O3"]:
                     cs.append((isa, std, opt, ()))
         one = ["-DFASTOR_USE_HADD", "-DFASTOR_USE_VECTORISED_EXPR_ASSIGN", "-DFASTOR_DONT_PERFORM_OP_MIN", "-DFASTOR_ZERO_INITIALISE",
-               "-DFASTOR_DISABLE_SPECIALISED_CTR", "-DCONTRACT_OPT=1", "-DCONTRACT_OPT=-1", "-DFASTOR_USE_OLD_NDVIEWS", "-DFASTOR_COPY_EXPR"]
+               "-DCONTRACT_OPT=1", "-DCONTRACT_OPT=-1"]
+        # not varied: FASTOR_COPY_EXPR, FASTOR_USE_OLD_NDVIEWS, FASTOR_DISABLE_SPECIALISED_CTR — internal switches that appear only as
+        # commented-out lines in macros.h; the property quantifies over the documented tuning macros
         for isa in ["sse2", "avx2", "avx512"]:
             for d in one:
                 cs.append((isa, "c++14", "-O2", (d,)))
@@ -103,6 +105,8 @@ def corpus(tier, seed):
     for t in FTYPES:
         for n in ([2, 3, 4, 5, 9] if tier == "quick" else [1, 2, 3, 4, 5, 6, 7, 8, 9, 12, 16, 17, 33]):
             calls.append("c_linalg<%s,%d>(%du);" % (t, n, sd()))
+    for (m, k, n) in [(2, 2, 2), (3, 5, 7)] + ([] if tier == "quick" else [(4, 4, 4), (1, 3, 9), (6, 2, 11)]):
+        calls.append("c_nonprim<%d,%d,%d>(%du);" % (m, k, n, sd()))
     if tier == "quick":
         # stratified sample: every case template at least twice, every element type
         by = {}
@@ -113,7 +117,7 @@ def corpus(tier, seed):
             lst = by[k]; rng.shuffle(lst)
             seen_t = set(); n = 0
             for c in lst:
-                t = c.split("<")[1].split(",")[0]
+                t = c.split("<")[1].split(",")[0] if k != "c_nonprim" else c
                 if t not in seen_t and n < (4 if k in ("c_mm", "c_ew", "c_red") else 2):
                     seen_t.add(t); pick.append(c); n += 1
         calls = pick
@@ -144,6 +148,8 @@ def approx_close(a, b):
     tol = 64.0 * eps * scale * max(1.0, math.sqrt(len(va)))
     worst = 0.0
     for x, y in zip(va, vb):
+        if x == y:
+            continue        # also equal infinities (an overflowing determinant overflows in every configuration)
         if x != x or y != y or math.isinf(x) or math.isinf(y):
             return False, float("inf")
         worst = max(worst, abs(x - y) / tol)
